@@ -30,6 +30,7 @@ SPEC = dict(
     ),
     assumptions=[
         "ops limited to {sum, x[0], detach, unbind, add, mul, stack}; node identity = op application (siblings of a multi-output op share a node)",
+        "one scenario has a leaf with zero elements; mtl_backward is also called with one parameter list explicit and the other defaulted",
         "no in-place ops, no retain_grad()",
     ],
 )
@@ -71,8 +72,22 @@ def _mtl_combos(t, maxf, maxl):
                         yield list(F), list(L)
 
 
+S0 = ((2,), (0,), ())  # a leaf with zero elements (e.g. an optional block of width 0)
+ARITH = ("add", "mul")
+
+
 def gen_cases(tier, seed):
     items = []
+    for depth in (1, 2):
+        for prog, outs in P.enum_program_outputs(S0, (1, 1, 1), depth, ops=OPS, both_orders=False):
+            items.append(("bw", prog, outs, None))
+    # scalar arithmetic DAGs with 3 ops in BOTH tiers (1 feature, 1 loss): the smallest family in which a head-side node can be
+    # created before the feature node and be combined with it afterwards
+    for flags in ("all", "L1off"):
+        for prog in P.enum_programs(P.SHAPE_SCENARIOS["S3"], P.FLAG_SCENARIOS[flags], 3, ops=ARITH):
+            t = P.Typed(prog)
+            for F, L in _mtl_combos(t, 1, 1):
+                items.append(("mtl", prog, F, L))
     for flags in ("all", "L1off"):
         for depth in (1, 2, 3):
             for prog, outs in P.enum_program_outputs(P.SHAPE_SCENARIOS["S1"], P.FLAG_SCENARIOS[flags], depth, ops=OPS, both_orders=False):
@@ -98,7 +113,7 @@ def _same(ga, gb):
     for x, y in zip(ga, gb):
         if (x is None) != (y is None):
             return False
-        if x is not None and (x.shape != y.shape or float(np.abs(x - y).max()) > 1e-12 * max(1.0, float(np.abs(y).max()))):
+        if x is not None and (x.shape != y.shape or (x.size and float(np.abs(x - y).max()) > 1e-12 * max(1.0, float(np.abs(y).max())))):
             return False
     return True
 
@@ -148,6 +163,24 @@ def run_case(case):
             eb = _try(lambda: mtl_backward([B[l] for l in L], [B[f] for f in F], agg(), tasks_params=[[B[p] for p in tp] for tp in tasks],
                                            shared_params=[B[p] for p in shared]))
             execs += 2
+            # mixed forms: one of the two lists explicit (the model's), the other defaulted - must behave as the all-explicit call
+            C = P.build_torch(prog, lv)
+            mixed = "shared-explicit" if (len(prog["ops"]) + len(F) + len(L) + F[0]) % 2 == 0 else "tasks-explicit"
+            if mixed == "shared-explicit":
+                ec = _try(lambda: mtl_backward([C[l] for l in L], [C[f] for f in F], agg(), shared_params=[C[p] for p in shared]))
+            else:
+                ec = _try(lambda: mtl_backward([C[l] for l in L], [C[f] for f in F], agg(), tasks_params=[[C[p] for p in tp] for tp in tasks]))
+            execs += 1
+            if overlap:
+                if not isinstance(ec, ValueError):
+                    viol.append(dict(sig=f"overlapping-defaults-not-rejected:{mixed}", msg=f"mtl_backward {P.prog_str(prog)} features={F} losses={L} | model "
+                                     f"shared={shared} tasks={tasks}: {mixed} call gave {type(ec).__name__ if ec else 'no exception'}"))
+                    continue
+            elif (ec is None) != (eb is None) or (ec is None and not _same(_grads(C, t), _grads(B, t))):
+                viol.append(dict(sig=f"mixed-default-vs-explicit:{mixed}", cls=f"mixed:{mixed}",
+                                 msg=f"mtl_backward {P.prog_str(prog)} features={F} losses={L} | model shared={shared} tasks={tasks}: {mixed} -> {ec!r} "
+                                     f"{[None if g is None else g.tolist() for g in _grads(C, t)]} vs explicit {eb!r} {[None if g is None else g.tolist() for g in _grads(B, t)]}"[:900]))
+                continue
             where = f"mtl_backward {P.prog_str(prog)} features={F} losses={L} | model shared={shared} tasks={tasks}"
             if overlap or (set(shared) | set().union(*map(set, tasks))) != grad_leaves:
                 nontriv += 1
